@@ -93,7 +93,11 @@ pub fn run_bisync(
 
     let host = host_id();
     // Start from the trusted base and mutate to the new common state as we apply.
+    // A path gone from BOTH sides gets no action (reconcile walks the union of A
+    // and B), so it must leave the common state here — a stale entry would make a
+    // later re-creation of that file look like "unchanged since base" and delete it.
     let mut common = base;
+    common.retain(|p, _| a.contains_key(p) || b.contains_key(p));
     let mut conflict_paths: Vec<PathBuf> = Vec::new();
     for (path, act) in &plan {
         apply(
